@@ -126,6 +126,13 @@ def build(cfg, variant=0):
     test = getattr(NonnegMean, tn)
     if k == "sprt" and cfg.get("explicit_estim"):
         en = "fixed_alternative_mean"       # a caller may name the estimator explicitly; then no eta is set at construction
+    if k == "sprt" and not cfg.get("explicit_estim") and "eta" not in cfg.get("defaults", ()) and variant % 4 == 2:
+        # the SPRT is documented to use the fixed alternative whatever estimator the instance carries: an instance
+        # configured with another one (and that estimator's tuning constants) must give the same answers (only when
+        # the caller names eta: which default applies to an omitted eta does depend on whether an estimator is named)
+        en = "shrink_trunc"
+        kw.setdefault("c", 0.5)
+        kw.setdefault("d", 10)
     estim = getattr(NonnegMean, en) if en else None
     bet = getattr(NonnegMean, bn) if bn else None
     if variant % 3 == 1:     # positional, in the documented order
@@ -647,6 +654,11 @@ def _gen_long(rng, kind=None, style=None):
             cfg["N"] = 10 ** 5
         if kind in ("km", "kw", "kk"):
             cfg["t"] = C.frac(rng.choice([1e-3, 0.01, 0.25])) * cfg["u"]
+        if kind == "bet_fixed" and rng.random() < 0.5:
+            # the largest bet that keeps every factor non-negative when sampling with replacement: lambda = 1/t, for
+            # which an observation of 0 makes the factor exactly zero
+            cfg["N"] = None
+            cfg["p"]["lam"] = 1 / cfg["t"]
         u = cfg["u"]
         n = rng.choice([130, 400, 1100])
         tiny = C.frac(rng.choice([5e-324, 1e-315, 1e-300, 1e-200]))
